@@ -223,13 +223,8 @@ pub fn check_doc(v: &RVal, acc: &mut Acc, ext: bool) {
         if let RVal::Num(n) = v {
             acc.eval();
             let got = (tree.as_u64(), tree.as_i64(), tree.is_u64(), tree.is_i64(), tree.is_f64());
-            let expn = match n {
-                RNum::U(u) => (Some(*u), i64::try_from(*u).ok(), true, i64::try_from(*u).is_ok(), true),
-                RNum::I(i) => (u64::try_from(*i).ok(), Some(*i), u64::try_from(*i).is_ok(), true, true),
-                RNum::F(_) => (None, None, false, false, true),
-            };
-            if got != expn {
-                acc.vio("Value::number-views:wrong", || json!({"ctx": ctxv(), "observed": format!("{:?}", got), "expected": format!("{:?}", expn)}));
+            if !(n.view_u64_admissible(got.0) && n.view_i64_admissible(got.1) && got.2 == got.0.is_some() && got.3 == got.1.is_some() && got.4) {
+                acc.vio("Value::number-views:wrong", || json!({"ctx": ctxv(), "observed": format!("{:?}", got)}));
             }
         }
     }
@@ -365,18 +360,23 @@ fn casts(v: &RVal, b: &[u8], acc: &mut Acc) {
     if as_num.as_ref().map(from_num_raw) != num || is_num != num.is_some() {
         bad.push("number");
     }
-    let ei = num.and_then(|n| n.view_i64());
-    if as_i != ei || is_i != ei.is_some() {
+    // integers: exact when they fit, absent otherwise; floats: absent or the exact integer (C18's
+    // "exact or absent"), the same answer as the decoded tree gives
+    let tree_views = guard(|| jsonb::from_slice(b).ok().map(|t| (t.as_i64(), t.as_u64()))).ok().flatten();
+    let i_ok = match num { Some(n) => n.view_i64_admissible(as_i), None => as_i.is_none() };
+    if !i_ok || is_i != as_i.is_some() || tree_views.map(|t| t.0 != as_i).unwrap_or(true) {
         bad.push("i64");
     }
+    let ei = as_i;
     let e_to_i = ei.or(bo.map(|x| x as i64)).or_else(|| s.as_ref().and_then(|s| s.parse::<i64>().ok()));
     if to_i != e_to_i {
         bad.push("to_i64");
     }
-    let eu = num.and_then(|n| n.view_u64());
-    if as_u != eu || is_u != eu.is_some() {
+    let u_ok = match num { Some(n) => n.view_u64_admissible(as_u), None => as_u.is_none() };
+    if !u_ok || is_u != as_u.is_some() || tree_views.map(|t| t.1 != as_u).unwrap_or(true) {
         bad.push("u64");
     }
+    let eu = as_u;
     let e_to_u = eu.or(bo.map(|x| x as u64)).or_else(|| s.as_ref().and_then(|s| s.parse::<u64>().ok()));
     if to_u != e_to_u {
         bad.push("to_u64");
